@@ -30,6 +30,25 @@ CLAIMED = {
         "technique": "Coq-verified table validator + N(T) soundness theorem + LR driver simulation proof; differential correspondence",
         "design": "DESIGN.md section 7, C04",
     },
+    "C12": {
+        "text": "Unbounded Coq theorems over a Gallina model of create_load_table / persist.py / _check_parser as a machine over "
+                "one grammar directory, parametric in the grammar loader and the table builder: (1) save/load round trip for "
+                "every grammar and every well-formed table (same actions, gotos, finish flags, recomputed conflicts and dynamic "
+                "marks, identical re-serialisation); (2) an absent or older .pgc is never consulted, in every directory state; "
+                "(3) for all histories with one option fingerprint, no interrupted write, untouched .pgc and a strictly advancing "
+                "clock every construction equals the cache-free one; (4) four refutation witnesses (other options, truncated "
+                "file, touched .pgc, same mtime tick) showing the property as written is false and each hypothesis necessary. "
+                "Tied to /repo by generated histories run in temporary directories (per step: cache decision, .pgc bytes and "
+                "mtime, table or exception), a cache-free oracle parser per construction (table, marks, parses), round trips of "
+                "real tables under the same and a different grammar, and every byte prefix of real .pgc files.",
+        "note": "Refuted + partial: the impl violates the property in three ways, listed as KF-C12-options-not-in-key, "
+                "KF-C12-partial-file-not-rejected, KF-C12-validity-by-mtime-only. Trusted: Coq kernel, extraction, OCaml driver, "
+                "harness dumps; json (a strict prefix of a document never decodes; dumps(sort_keys) is a function of the value); "
+                "a crash leaves a byte prefix; mtimes are forced with os.utime. The .pgec error-hint cache is not modelled.",
+        "technique": "Coq proof over a Gallina cache-machine/persistence model (invariant by induction over histories) + "
+                     "differential correspondence on generated histories + property-level cache-free oracle",
+        "design": "DESIGN.md section 7, C12",
+    },
 }
 
 NOT_YET = "machinery for this property is not built yet in this commit (planned, see DESIGN.md section 12)"
